@@ -1,4 +1,5 @@
 import OPM.Lemmas.InterpLock
+import OPM.Model.InterpBlocks
 /-!
 # Blocks: the order of `get_locked_blocks()` (C05)
 
@@ -57,20 +58,6 @@ def Chain (p : Prog) (s : St) : Prop :=
     a = b ∨ a ∈ ancestors p b ∨ b ∈ ancestors p a
 
 /-! ## well-formed method trees -/
-
-/-- `a` is a proper prefix of `b` (code-point lists of key paths). -/
-def properPrefix (a b : List Nat) : Bool := a.isPrefixOf b && decide (a.length < b.length)
-
-/-- Well-formed method tree: every node belongs to the method (no injected nodes), a parent has a
-    smaller index than its child (depth-first numbering of `get_all_nodes`) and the parent's key path
-    is a proper prefix of the child's (`key_path = " > ".join(keys of the ancestors + own key)`).
-    Decidable; the driver's `wf` op evaluates it on every method the real parser produced. -/
-def ProgWF (p : Prog) : Bool :=
-  (List.range p.size).all fun n =>
-    (node p n).inProgram &&
-    match (node p n).parent with
-    | none => true
-    | some q => decide (q < n) && properPrefix (node p q).keyPath (node p n).keyPath
 
 theorem node_of_size_le (p : Prog) (n : Nat) (h : p.size ≤ n) : node p n = default := by
   unfold node
